@@ -157,7 +157,10 @@ func run(c caseT) (res result) {
 	}
 	defer p.Close()
 	if c.ClientSeq != 0 {
+		// both ends of the channel are moved to the chosen point of the numbering
+		// (a receiver may reject a number that is more than 2^31 ahead)
 		p.Client.VerifSetSequenceNumber(c.ClientSeq)
+		p.Server.VerifSetReceivedSequenceNumber(c.ClientSeq)
 	}
 	ctrl := sched.New(c.Rules)
 	uasc.VerifSetPointFunc(ctrl.Point)
